@@ -661,8 +661,9 @@ func runPair(c *Ctx, f *FC, nr map[string]bool) *pairAn {
 	// who-may-call
 	callers := map[string]map[string]bool{}
 	litBuilders := map[string]bool{}
-	for _, fn := range f.Prog.Funcs {
-		ir.WalkFunc(fn, func(t ir.Term) bool {
+	for _, at := range f.Attributed() {
+		fn := at.Owner
+		ir.WalkFunc(at.Body, func(t ir.Term) bool {
 			switch x := t.(type) {
 			case *ir.FuncRef:
 				name := strings.TrimPrefix(x.Key, f.Path+".")
